@@ -244,6 +244,12 @@ theorem operand_dot {d t : Token} (hd : d.type = .dot)
     Operand p (A ++ d :: t :: B) (.pipe a b) :=
   let ⟨_, h1⟩ := hA; let ⟨_, h2⟩ := hB; ⟨_, Pratt.operand_dot hd ht hp h1 h2⟩
 
+/-- `A []` (the flatten projection, nothing selector-like following) is an operand at every power below that of `[]`,
+    so at the level of every binary operator: `A o B []` = `A o (B [])` and `A [] o B` = `(A []) o B` -/
+theorem operand_flatten {t : Token} (ht : t.type = .flatten) {p : Nat} {A : List Token} {a : INode}
+    (hp : p < precedence .flatten) (hA : Operand (precedence .flatten) A a) : Operand p (A ++ [t]) (.flatten a) :=
+  let ⟨_, h⟩ := hA; ⟨_, Pratt.operand_flatten ht hp h⟩
+
 /-! ## 6. Parentheses -/
 
 /-- `( A o1 B ) o2 C` groups to the left whatever the levels -/
@@ -476,13 +482,29 @@ example : Operand 1 [tA, tk .asterisk [0x2A], tk .subtract [0x2D], tB] (.binop .
 theorem ex_neg_dot : Parser.parse [0x2D, 0x61, 0x2E, 0x62] = .ok (.negate (.pipe fa fb)) :=
   parse_of_operandF (ts := [tk .subtract [0x2D], tA, tk .dot [0x2E], tB]) (by decide)
     (operand_negate (t := tk .subtract [0x2D]) rfl
-      (operand_dot (d := tk .dot [0x2E]) (t := tB) (A := [tA]) (B := []) rfl (Or.inl rfl) (by decide)
+      (Pratt.operand_dot (d := tk .dot [0x2E]) (t := tB) (A := [tA]) (B := []) rfl (Or.inl rfl) (by decide)
         (opA _) (opB _)) (q := 1) (by decide)) (by decide)
 
 theorem ex_not_dot : Parser.parse [0x21, 0x61, 0x2E, 0x62] = .ok (.pipe (.not fa) fb) :=
   parse_of_operandF (ts := [tk .not [0x21], tA, tk .dot [0x2E], tB]) (by decide)
-    (operand_dot (d := tk .dot [0x2E]) (t := tB) (A := [tk .not [0x21], tA]) (B := []) rfl (Or.inl rfl)
+    (Pratt.operand_dot (d := tk .dot [0x2E]) (t := tB) (A := [tk .not [0x21], tA]) (B := []) rfl (Or.inl rfl)
       (p := 1) (by decide) (operand_not (t := tk .not [0x21]) rfl (opA _) (by decide)) (opB _)) (by decide)
+
+-- `a+b[]` = a + (b[])  and  `a[]*b` = (a[]) * b : projections are tighter than every binary operator
+theorem ex_add_flatten : Parser.parse [0x61, 0x2B, 0x62, 0x5B, 0x5D] = .ok (.binop .add fa (.flatten fb)) :=
+  parse_of_operandF (ts := [tA, tk .add [0x2B], tB, tk .flatten [0x5B, 0x5D]]) (by decide)
+    (operand_binop (o := tk .add [0x2B]) (A := [tA]) (B := [tB, tk .flatten [0x5B, 0x5D]]) rfl rfl (by decide) (opA _)
+      (Pratt.operand_flatten (t := tk .flatten [0x5B, 0x5D]) (A := [tB]) rfl (by decide) (opB _))) (by decide)
+
+theorem ex_flatten_mul : Parser.parse [0x61, 0x5B, 0x5D, 0x2A, 0x62] = .ok (.binop .mul (.flatten fa) fb) :=
+  parse_of_operandF (ts := [tA, tk .flatten [0x5B, 0x5D], tk .asterisk [0x2A], tB]) (by decide)
+    (operand_binop (o := tk .asterisk [0x2A]) (A := [tA, tk .flatten [0x5B, 0x5D]]) (B := [tB]) rfl rfl (by decide)
+      (Pratt.operand_flatten (t := tk .flatten [0x5B, 0x5D]) (A := [tA]) rfl (by decide) (opA _)) (opB _)) (by decide)
+
+example : Operand 1 [tA, tk .flatten [0x5B, 0x5D], tk .asterisk [0x2A], tB] (.binop .mul (.flatten fa) fb) :=
+  binary (o := tk .asterisk [0x2A]) (A := [tA, tk .flatten [0x5B, 0x5D]]) (B := [tB]) rfl (by decide)
+    (operand_flatten (t := tk .flatten [0x5B, 0x5D]) (A := [tA]) rfl (by decide) (operand_ident (t := tA) rfl _))
+    (operand_ident (t := tB) rfl _)
 
 -- `(a+b)*c`  =  (a + b) * c ;  `a*(b+c)`  =  a * (b + c)
 theorem ex_paren_left :
